@@ -70,7 +70,7 @@ fn cfg_for(chain: bool, comments: bool) -> Value {
 
 fn run(cfgv: &Value, seed: u64, code: &str, file: &str, fs: &FsSpec, plan: &FaultPlan) -> Result<Out, String> {
     let cfg = exec::make_config(cfgv, seed).map_err(|o| format!("to_config: {:?}", o))?;
-    let reader = SimFileReader::new(fs, plan);
+    let reader = if plan.reenter { SimFileReader::new(fs, plan).with_reenter(Box::new(move || exec::nested_rewrite(fs))) } else { SimFileReader::new(fs, plan) };
     let r = catch_unwind(AssertUnwindSafe(|| {
         vh::rewrite_js(code.to_string(), file, &cfg, &reader).map(|res| {
             let content = vh::print_js(&res.code, &res.source_map, &res.original_source_map, &cfg).into_owned();
@@ -305,6 +305,7 @@ fn plan10(seed: u64, run: u64, tier: Tier) -> Plan10 {
         reads.push(if rng.chance(1, 3) { ReadAct::Err(IoKind::Interrupted) } else { ReadAct::Give(rng.range(1, 9)) });
     }
     benign.reads = reads;
+    benign.reenter = rng.chance(1, 4);
     if rng.chance(1, 3) {
         benign.open_latency_ms = *rng.pick(&[10, 2500, 90_000]);
         benign.read_latency_ms = *rng.pick(&[1, 800, 5000]);
